@@ -51,7 +51,8 @@ type scheduler struct {
 	explore int  // deviations from lowest-numbered-first still allowed on this path (policy 3)
 	preempt bool // policy 3: a goroutine may also be descheduled before a channel / lock operation that would not block
 	nchoice int
-	acks   chan struct{}
+	base    int // policy 3: the order choice 0 follows - 0 lowest-numbered first, 1 highest-numbered first
+	acks    chan struct{}
 }
 
 var sch *scheduler
@@ -92,12 +93,14 @@ func (s *scheduler) pick(except *gthread) *gthread {
 		if len(cand) == 0 {
 			return nil
 		}
+		s.order(cand)
 		if len(cand) == 1 || s.explore <= 0 {
 			return cand[0]
 		}
 		k := s.choice(len(cand))
 		if k != 0 {
 			s.explore--
+			s.debugChoice("block/end of "+s.me().name+" ("+s.me().what+")", cand, k)
 		}
 		return cand[k]
 	case 1:
@@ -122,6 +125,26 @@ func (s *scheduler) pick(except *gthread) *gthread {
 		}
 	}
 	return nil
+}
+
+func (s *scheduler) debugChoice(where string, cand []*gthread, k int) {
+	if os.Getenv("GOSMT_THREADDEBUG") == "" {
+		return
+	}
+	var names []string
+	for _, t := range cand {
+		names = append(names, fmt.Sprintf("%d:%s", t.id, t.name))
+	}
+	fmt.Fprintf(os.Stderr, "sched.%d: %s -> runs %s (candidates %v) at %s\n", s.nchoice-1, where, names[k], names, dbgWhere())
+}
+
+// order puts the candidates of an explored choice into the base order.
+func (s *scheduler) order(cand []*gthread) {
+	if s.base == 1 {
+		for i, j := 0, len(cand)-1; i < j; i, j = i+1, j-1 {
+			cand[i], cand[j] = cand[j], cand[i]
+		}
+	}
 }
 
 // anyOther reports whether some thread other than except could run (no decision is taken).
@@ -167,11 +190,13 @@ func (s *scheduler) preemptPoint(what string) {
 	if len(cand) == 0 {
 		return
 	}
+	s.order(cand)
 	k := s.choice(len(cand) + 1)
 	if k == 0 {
 		return
 	}
 	s.explore--
+	s.debugChoice("preempt "+me.name+" before "+what, cand, k-1)
 	me.ready = func() bool { return true }
 	me.what = "preempted before " + what
 	s.transfer(cand[k-1])
